@@ -85,6 +85,10 @@ type dvCfg struct {
 	GPUMem   []int64 `json:"gpu_mem"`  // per node: GPU memory size in bytes (a property of the hardware, fixed for the run)
 	OddBytes bool    `json:"odd_bytes"` // byte-denominated GPU memory requests that are not a whole percentage of the card
 	Split    bool    `json:"split"`     // informer events may be handled between the Filter phase and Reserve of one scheduling cycle
+	// per node: GPUs per PCIe switch as the device reporter fills DeviceInfo.Topology (socket / NUMA node / PCIe / bus id)
+	// for every device of the node; 0 = the reporter fills no topology. With it the node gets a gpuTopologyScope and GPU
+	// requests are served by the topology-aware allocator (allocateByDeviceTopology / allocateFromScope).
+	Topo []int `json:"topo,omitempty"`
 	// C19 only: how the start-up deliveries of a restarted scheduler are merged ("devices-first": every Device object is
 	// handled before the first pod; "any": the Device and the pod informer run independently)
 	Order string `json:"order,omitempty"`
@@ -227,6 +231,14 @@ func dvNodeIdx(node string) int {
 	return i
 }
 
+// topo returns the number of GPUs per PCIe switch on the node (0: no topology reported).
+func (c *dvCfg) topo(node string) int {
+	if i := dvNodeIdx(node); i < len(c.Topo) {
+		return c.Topo[i]
+	}
+	return 0
+}
+
 func (s *dvStore) gpuMem(node string) int64 {
 	i := dvNodeIdx(node)
 	if i < len(s.cfg.GPUMem) {
@@ -274,10 +286,18 @@ func (s *dvStore) devObj(node string, o *dvDevObj) *schedulingv1alpha1.Device {
 	d := &schedulingv1alpha1.Device{ObjectMeta: metav1.ObjectMeta{Name: node, UID: types.UID(o.UID), ResourceVersion: fmt.Sprint(o.RV)}}
 	for _, x := range o.Devs {
 		m := int32(x.M)
-		d.Spec.Devices = append(d.Spec.Devices, schedulingv1alpha1.DeviceInfo{
+		info := schedulingv1alpha1.DeviceInfo{
 			Type: schedulingv1alpha1.DeviceType(x.T), Minor: &m, UUID: fmt.Sprintf("%s-%s-%d", node, x.T, x.M), Health: x.H,
 			Resources: dvDevResources(node, x, s.gpuMem(node)),
-		})
+		}
+		if k := s.cfg.topo(node); k > 0 {
+			// k devices per PCIe switch, two switches per NUMA node, one NUMA node per socket
+			pcie := x.M / k
+			bus := 0x10*(pcie+1) + 1 + x.M%k
+			info.Topology = &schedulingv1alpha1.DeviceTopology{SocketID: int32(pcie / 2), NodeID: int32(pcie / 2),
+				PCIEID: fmt.Sprintf("0000:%02x", 0x10*(pcie+1)), BusID: fmt.Sprintf("0000:%02x:00.0", bus)}
+		}
+		d.Spec.Devices = append(d.Spec.Devices, info)
 	}
 	return d
 }
@@ -629,6 +649,16 @@ func (dvEngine) Generate(p *sim.Plan, g *sim.Rng) {
 	cfg.Split = !cfg.Serial && g.Bool(0.5)
 	for i := 0; i < cfg.Nodes; i++ {
 		cfg.GPUMem = append(cfg.GPUMem, g.PickI64(16<<30, 80<<30, 24564<<20, 8000000000, 40<<30))
+	}
+	if g.Bool(0.25) {
+		// GPU topology runs: most nodes report the topology of every device
+		for i := 0; i < cfg.Nodes; i++ {
+			k := 0
+			if i == 0 || g.Bool(0.7) {
+				k = g.PickInt(1, 2, 2, 4)
+			}
+			cfg.Topo = append(cfg.Topo, k)
+		}
 	}
 	if g.Bool(0.8) {
 		p.FaultRate = []float64{0.05, 0.15, 0.3}[g.Intn(3)]
@@ -1038,11 +1068,18 @@ func dvAllocStr(a dvAlloc) string {
 	return strings.Join(parts, " ")
 }
 
-func (s *dvSim) expected(pod string) *dvHeld {
-	if b := s.bound[pod]; b != nil {
+// expected returns what the pod holds on the given node: the allocation of the bound pod as the informer delivered
+// it, else a reservation the scheduler committed there and has not rolled back. (After a lost bind acknowledgement a
+// pod can be bound on one node and - in a second, doomed cycle - reserved on another: both ledgers count it. On the
+// same node the ledger has one entry per pod name and the delivered allocation is the truth.)
+func (s *dvSim) expected(pod, node string) *dvHeld {
+	if b := s.bound[pod]; b != nil && b.node == node {
 		return b
 	}
-	return s.reserved[pod]
+	if h := s.reserved[pod]; h != nil && h.node == node {
+		return h
+	}
+	return nil
 }
 
 func (s *dvSim) podNames() []string {
@@ -1068,8 +1105,8 @@ func (s *dvSim) podNames() []string {
 func (s *dvSim) modelUsed(node string) dvAlloc {
 	out := dvAlloc{}
 	for _, p := range s.podNames() {
-		h := s.expected(p)
-		if h == nil || h.node != node {
+		h := s.expected(p, node)
+		if h == nil {
 			continue
 		}
 		for t, ms := range h.alloc {
@@ -1446,7 +1483,7 @@ func (s *dvSim) modelPodUpsert(np *corev1.Pod) {
 		return
 	}
 	s.known[np.Spec.NodeName] = true
-	prev := s.expected(np.Name)
+	prev := s.expected(np.Name, np.Spec.NodeName)
 	if prev != nil && prev.node == np.Spec.NodeName && dvAllocEq(prev.alloc, a) {
 		if s.bound[np.Name] == nil {
 			s.r.Probe("bound-event-confirms-reservation")
@@ -1479,13 +1516,14 @@ func (s *dvSim) modelPodGone(p *corev1.Pod) {
 	if !s.known[p.Spec.NodeName] {
 		return
 	}
-	if h := s.expected(p.Name); h != nil && h.uid == string(p.UID) && !dvAllocEq(h.alloc, dvPodAlloc(s.r, p)) {
+	if h := s.expected(p.Name, p.Spec.NodeName); h != nil && h.uid == string(p.UID) && !dvAllocEq(h.alloc, dvPodAlloc(s.r, p)) {
 		// history class of a recorded finding: the event that ends the pod (delete / terminated) carries a recorded
 		// allocation different from the one the ledger holds for it (relist merged a rewrite with the termination)
 		s.tag("release-event-differs-from-ledger")
 	}
 	delete(s.bound, p.Name)
-	if h := s.reserved[p.Name]; h != nil && h.uid == string(p.UID) {
+	// deletePod only touches the ledger of the node the event names: a reservation on another node stays until Unreserve
+	if h := s.reserved[p.Name]; h != nil && h.uid == string(p.UID) && h.node == p.Spec.NodeName {
 		delete(s.reserved, p.Name)
 	}
 }
@@ -1527,10 +1565,19 @@ func (s *dvSim) cycle(op *dvOp) {
 				op.Pod, n, reqs, dvAllocStr(s.inv[n]), dvAllocStr(s.modelUsed(n)))
 		}
 		if !st.IsSuccess() && want {
-			s.fail("filter", "rejects-feasible", "Filter rejects %s on %s (%s) although a feasible set exists for %+v: inventory %s used %s",
-				op.Pod, n, st.Message(), reqs, dvAllocStr(s.inv[n]), dvAllocStr(s.modelUsed(n)))
+			if s.scoped(n, reqs) {
+				// completeness is not claimed where the topology-scope allocator places GPUs: it may refuse a
+				// feasible but badly placed set
+				r.Probe("topology-node:feasible-set-refused")
+			} else {
+				s.fail("filter", "rejects-feasible", "Filter rejects %s on %s (%s) although a feasible set exists for %+v: inventory %s used %s",
+					op.Pod, n, st.Message(), reqs, dvAllocStr(s.inv[n]), dvAllocStr(s.modelUsed(n)))
+			}
 		}
-		if want {
+		if s.scoped(n, reqs) {
+			r.Probe("topology-node:completeness-not-checked")
+		}
+		if st.IsSuccess() {
 			feas = append(feas, n)
 		}
 	}
@@ -1562,7 +1609,9 @@ func (s *dvSim) reserve(o *dvOpen) {
 	st := s.pl.Reserve(ctx, cs, pod, node)
 	s.oracleEval()
 	if !st.IsSuccess() {
-		if want {
+		if want && s.scoped(node, reqs) {
+			r.Probe("topology-node:feasible-set-refused")
+		} else if want {
 			s.fail("reserve", "fails-though-feasible", "Reserve of %s on %s failed (%s) although a feasible set exists for %+v: inventory %s used %s",
 				name, node, st.Message(), reqs, dvAllocStr(s.inv[node]), dvAllocStr(usedBefore))
 		}
@@ -1602,6 +1651,24 @@ func (s *dvSim) reserve(o *dvOpen) {
 	if len(reqs) > 1 {
 		r.Probe("multi-type-allocation")
 	}
+	if s.scoped(node, reqs) {
+		r.Probe("topology-node:gpu-allocation")
+	}
+}
+
+// scoped reports whether GPUs of the request would be placed by the topology-scope allocator on the node: every
+// device of the node reports its topology (so a gpuTopologyScope exists) and the pod asks for GPUs. The soundness
+// oracles stay on for such allocations; the completeness oracle (brute-force feasibility) is switched off.
+func (s *dvSim) scoped(node string, reqs []dvReq) bool {
+	if s.cfg.topo(node) == 0 {
+		return false
+	}
+	for i := range reqs {
+		if reqs[i].T == dvGPU {
+			return true
+		}
+	}
+	return false
 }
 
 // checkAllocation: a successful allocation gives the requested number of distinct devices, each a
@@ -1667,8 +1734,8 @@ func (s *dvSim) tagSharedUndercountedCard(node string, alloc dvAlloc) {
 	for m := range alloc[dvGPU] {
 		n, under := 0, false
 		for _, p := range s.podNames() {
-			h := s.expected(p)
-			if h == nil || h.node != node {
+			h := s.expected(p, node)
+			if h == nil {
 				continue
 			}
 			a, ok := h.alloc[dvGPU][m]
@@ -1696,7 +1763,7 @@ func (s *dvSim) stepTask(i int) {
 	ctx := context.TODO()
 	if t.phase == 1 || t.rollback {
 		// the binding cycle failed (or another plugin rejected the pod after Reserve): roll back
-		if b := s.bound[t.name]; b != nil && b.uid == t.uid {
+		if b := s.bound[t.name]; b != nil && b.uid == t.uid && b.node == t.node {
 			// history class of a recorded finding: the informer already confirmed the pod as bound (the bind
 			// was applied but its acknowledgement was lost) and the scheduler now rolls the reservation back
 			s.tag("unreserve-after-bound-event")
@@ -1878,8 +1945,8 @@ func (s *dvSim) check() {
 		// allocate-set = model
 		wantSet := map[string]string{}
 		for _, p := range s.podNames() {
-			h := s.expected(p)
-			if h == nil || h.node != node {
+			h := s.expected(p, node)
+			if h == nil {
 				continue
 			}
 			for t, ms := range h.alloc {
@@ -1939,7 +2006,7 @@ func dvAgg(m map[corev1.ResourceName]*resource.Quantity) map[string]int64 {
 func (s *dvSim) heldStr(node string) string {
 	var parts []string
 	for _, p := range s.podNames() {
-		if h := s.expected(p); h != nil && h.node == node {
+		if h := s.expected(p, node); h != nil {
 			src := "reserved"
 			if s.bound[p] != nil {
 				src = "bound"
